@@ -27,6 +27,7 @@ class Module:
                 self.tree = ast.parse(src, filename=rel)
         except SyntaxError as e:  # pragma: no cover
             raise AnalysisError(f"cannot parse {rel}: {e}")
+        _strip_noops(self.tree)
         for parent in ast.walk(self.tree):
             for child in ast.iter_child_nodes(parent):
                 child._parent = parent  # type: ignore[attr-defined]
@@ -61,6 +62,20 @@ class Module:
                         self.star_imports.append(base)
                     else:
                         self.imports[a.asname or a.name] = base + "." + a.name
+
+
+def _strip_noops(tree: ast.AST) -> None:
+    """semantics-preserving normalisation applied to every parsed module: `pass` statements and bare string-constant
+    expression statements (docstrings, string comments) are dropped from any body that has other statements, so that no
+    rule depends on their presence or position."""
+    for n in ast.walk(tree):
+        for field in ("body", "orelse", "finalbody"):
+            b = getattr(n, field, None)
+            if isinstance(b, list) and len(b) > 1 and all(isinstance(x, ast.stmt) for x in b):
+                keep = [x for x in b if not (isinstance(x, ast.Pass) or (isinstance(x, ast.Expr) and isinstance(x.value, ast.Constant)
+                                                                        and isinstance(x.value.value, (str, type(Ellipsis)))))]
+                if keep and len(keep) != len(b):
+                    b[:] = keep
 
 
 class ClassInfo:
